@@ -148,6 +148,7 @@ class Scheduler(object):
     def start(self, i):
         with self.cv:
             self.idents[threading.get_ident()] = i
+            self.cv.notify_all()
             self._wait_turn(i)
 
     def begin(self):
@@ -279,9 +280,9 @@ def run_session(env, sess, serial, yield_=None):
     y = yield_ or (lambda: None)
     db, A, B = env.db, env.E['A'], env.E['B']
     kind, end = sess['kind'], sess.get('end', 'commit')
-    if sess.get('cold'):
-        db.disconnect()          # outside any session: the next session has to connect
     try:
+        if sess.get('cold'):
+            db.disconnect()      # outside any session: the next session has to connect
         if kind == 'ddl_api':
             db.drop_table('B', if_exists=True, with_all_data=True)
             y()
@@ -513,7 +514,10 @@ def run_actors_case(template, path, actors, schedule, plan, info=None):
                     env.cleanup_thread()
                     con = env.db.provider.pool.con
                     if con is not None:
-                        env.db.disconnect()      # the thread goes away: give its pooled connection back properly
+                        try:
+                            env.db.disconnect()  # the thread goes away: give its pooled connection back properly
+                        except BaseException:
+                            pass
                 finally:
                     sched.finish()
         threads = [threading.Thread(target=actor, args=(i,), name='actor%d' % i) for i in range(len(actors))]
@@ -523,7 +527,7 @@ def run_actors_case(template, path, actors, schedule, plan, info=None):
         # wait until every actor is parked at its start, then hand over to the first one
         with sched.cv:
             while len(sched.idents) < len(actors):
-                sched.cv.wait(0.01)
+                sched.cv.wait()
         sched.begin()
         for t in threads:
             t.join(300)
